@@ -283,3 +283,27 @@ Theorem C02_one_rtt_key_selected : forall C h kl G, (forall n, key_update C (G n
              qs_output s' = qs_output s /\ qs_pn s' = qs_pn s /\ qs_hp s' = qs_hp s /\ qs_tls s' = qs_tls s /\ qs_cipher s' = Some ci.
 Proof. exact one_rtt_key_selected. Qed.
 Print Assumptions C02_one_rtt_key_selected.
+
+(* ... and before it, the CRYPTO frame with the ClientHello (a whole message at offset 0 of the client's empty Initial-level stream): the
+   session learns the client random and the first offered suite; when that suite is none of the four QUIC suites -- a GREASE value
+   first, as browsers send it -- no keys are touched and the frame's data is kept as CRYPTO data; the server's streams stay as they
+   were, so that C02_quic_server_hello_frame applies to the ServerHello that follows.  (A first offered suite that IS one of the
+   four makes the session derive keys for it at once: the open finding on 0-RTT data is about exactly that.) *)
+Theorem C02_quic_client_hello_frame : forall C keylog s pk (l3 hv random sid f others cms rest : bytes),
+  qp_isserver pk = false -> qp_type pk = QInitial -> qt_client (qs_tls s) = [cs0; cs0; cs0; cs0] ->
+  len l3 = 3 -> from_be l3 = len (hv ++ random ++ [len sid] ++ sid ++ to_be_total (len (f ++ others)) 2 ++ (f ++ others) ++ [len cms] ++ cms ++ rest) ->
+  len hv = 2 -> len random = 32 -> len sid < 256 -> len f = 2 -> len (f ++ others) < 65536 -> len cms < 256 ->
+  bytes_ok f -> suite_choice f = None ->
+  let msg := [1] ++ l3 ++ hv ++ random ++ [len sid] ++ sid ++ to_be_total (len (f ++ others)) 2 ++ (f ++ others) ++ [len cms] ++ cms ++ rest in
+  exists s', handle_crypto_frame C keylog s pk 0 (len msg) msg = (s', true) /\
+    qt_client_random (qs_tls s') = Some random /\ qt_ciphersuite (qs_tls s') = Some f /\ qt_new_data (qs_tls s') = false /\
+    qt_server (qs_tls s') = qt_server (qs_tls s) /\
+    qs_output s' = qs_output s ++ [ {| of_kind := OCrypto; of_data := msg; of_ts := qp_ts pk; of_isserver := false |} ] /\
+    qs_handshake s' = qs_handshake s /\ qs_app s' = qs_app s /\ qs_hp s' = qs_hp s /\ qs_cipher s' = qs_cipher s /\ qs_pn s' = qs_pn s /\
+    qs_initial s' = qs_initial s /\ qs_version s' = qs_version s /\
+    qs_epoch_client s' = qs_epoch_client s /\ qs_epoch_server s' = qs_epoch_server s /\ qs_phase_client s' = qs_phase_client s /\ qs_phase_server s' = qs_phase_server s.
+Proof. exact client_hello_frame. Qed.
+Print Assumptions C02_quic_client_hello_frame.
+
+Example C02_grease_is_no_quic_suite : suite_choice [0x0a; 0x0a] = None /\ suite_choice [0xda; 0xda] = None /\ suite_choice [0x13; 0x01] <> None.
+Proof. vm_compute. repeat split; discriminate. Qed.
